@@ -1,6 +1,6 @@
 (* Entry points for the extracted OCaml driver. *)
 From MLPE Require Export Engine.Run Spec.Fragments.
-From MLPE Require Pure.FsStore.
+From MLPE Require Pure.FsStore Pure.Validate.
 
 Record result := {
   r_main : option (tstate frame);
@@ -48,3 +48,7 @@ Definition frag_flags (ds : decls) : list bool :=
 
 Definition fsstore_case (ops : list FsStore.op) : list FsStore.opres := snd (FsStore.run_ops FsStore.step [] ops).
 Definition fsstore_ext (pickle : bool) : list nat := FsStore.ext (if pickle then FsStore.FPickle else FsStore.FJson).
+
+Definition validate_case (ds : decls) (flags : list Validate.defects) : option Validate.berr :=
+  Validate.validate ds (fun i => match nth_opt flags i with Some d => d | None => Validate.no_defects end)
+                    0 (Nat.pred (length ds)).
